@@ -22,7 +22,7 @@ CONSTANTS ElemNames,   \* set of [sp, lo]
           MaxNodes,    \* bound on Len(doc)
           MaxDepth,    \* bound on Len(open)
           MaxEvents,   \* bound on Len(evs)
-          SurplusEnd   \* BOOLEAN: generate End events while only the root is open
+          SurplusEnd   \* BOOLEAN: generate End events, and namespace events, while only the root is open
 
 VARIABLES doc,      \* the tree built so far (XDM document)
           open,   \* stack of open containers, root at the bottom
@@ -47,7 +47,9 @@ Pull(ev, growth) ==
   /\ evs' = Append(evs, ev)
 
 StartElem(nm) == Len(open) < MaxDepth /\ Pull([k |-> "elem", sp |-> nm.sp, lo |-> nm.lo], 1 + Cardinality(NsOf(doc, Top)))
-NsDecl(ns) == Pull([k |-> "ns", lo |-> ns.lo, v |-> ns.v], 1)
+\* (namespace events while only the root is open are generated together with the other streams no built-in reader produces:
+\*  the document generators of the XPath families, SurplusEnd = FALSE, keep to documents of the XPath data model)
+NsDecl(ns) == (Len(open) > 1 \/ SurplusEnd) /\ Pull([k |-> "ns", lo |-> ns.lo, v |-> ns.v], 1)
 Attr(nm, val) == Pull([k |-> "attr", sp |-> nm.sp, lo |-> nm.lo, v |-> val], 1)
 Leaf(k, lo, val) == Pull(IF k = "pi" THEN [k |-> k, lo |-> lo, v |-> val] ELSE [k |-> k, v |-> val], 1)
 End == (Len(open) > 1 \/ SurplusEnd) /\ Pull([k |-> "end"], 0)
